@@ -25,8 +25,9 @@ Clause of the property                                                        or
 ---------------------------------------------------------------------------  -------------------------------------------
 average over admissible observation pairs per method and weighting, for      orc_pairs (domains C15/pair-loop: exhaustive
 every pair of condition labels (6 methods, 2 weightings, noise None / eye /  over all condition-index sequences of length
-SPD precision, with / without fold descriptor, prior_lambda / prior_weight)  <= 5 (6 thorough) x all settings; seeded
-                                                                             larger designs up to 7 conditions)
+SPD precision, with / without fold descriptor, prior_lambda / prior_weight)  <= 4 (5 thorough) x all settings; C15/pair-
+                                                                             loop-random: seeded larger designs, <= 7
+                                                                             conditions, <= 16 observations)
 labelled by condition in order of first appearance                           orc_pairs on C15/first-appearance: exhaustive
                                                                              over ALL label sequences of length <= 5 (6)
                                                                              with 2..4 conditions x ALL first-appearance
@@ -70,7 +71,14 @@ Findings on the unchanged tree (see C15_findings.md; each has its own input_clas
                               weights by the total channel count; such cases are executed in a separate interpreter
   'equal-weighting-no-cv'     weighting='equal' without fold descriptor: the self pairs get weight 1/2 == 0 (C integer
                               division) -> wrong values, all-NaN for conditions with one observation
+  'condition-without-self-pair'  a condition without admissible within-condition pair (e.g. present in one fold only)
+                              makes EVERY entry NaN (0*NaN in the indicator-matrix product of calc_rdm_unbalanced), also
+                              entries of condition pairs that have admissible pairs; class = such a condition exists AND
+                              the definition gives at least one finite entry (computed by counting, `klass`)
 Cases are labelled with the FIRST applicable class in this order; everything else is 'generic' (or a descriptive label).
+Validation of the classes (scratch, not part of this file): with a pure-python transcription of similarity.pyx carrying
+the repairs suggested in C15_findings.md (1-3) and the index-based repair of 4, the whole tier (quick and thorough) has
+no failure; with repair 4 alone (scratch worktree) only classes 1-3 fail.
 
 NOT covered by this tier
 * "for all datasets": bounded enumeration / seeded samples only (no proof); sizes <= 16 observations, <= 7 conditions,
@@ -86,7 +94,6 @@ NOT covered by this tier
 import atexit
 import itertools
 import json
-import os
 import subprocess
 import sys
 import warnings
@@ -790,7 +797,7 @@ def tier_c(run, thorough):
                              function='calc_rdm_unbalanced')
                     count += 1
                 # one further setting per (sequence, permutation), rotating
-                method, weighting, noise = rot[count % len(rot)]
+                method, weighting, noise = rot[(count // 2) % len(rot)]
                 labels = [STR_NAMES[perm[c]] for c in seq]
                 case = dict(seed=count % 5, labels=labels, P=3, method=method, weighting=weighting, noise=noise)
                 if method in CV_METHODS:
@@ -829,7 +836,7 @@ def tier_c(run, thorough):
     bds.append(bd)
 
     # ---- 3. seeded larger designs ----------------------------------------------------------------------------------
-    n_seed = 90 if thorough else 10
+    n_seed = 90 if thorough else 16
     bd = Bounded(run, 'C15/pair-loop-random', 'C15/calc_rdm_unbalanced/oracle/pair-loop-random',
                  'seeded designs: 3..7 conditions, 4..16 observations in random order (half of them with every condition repeated), 2..6 channels, random fold assignment '
                  '(2..4 folds, int/float/string labels) or none, 6 methods x noise x 2 weightings x 5 NaN patterns, prior '
@@ -871,7 +878,7 @@ def tier_c(run, thorough):
     bds.append(bd)
 
     # ---- 4. agreement with calc_rdm --------------------------------------------------------------------------------
-    n_seed = 40 if thorough else 6
+    n_seed = 40 if thorough else 8
     bd = Bounded(run, 'C15/agree-calc_rdm', 'C15/calc_rdm_unbalanced/oracle/agrees-with-calc_rdm',
                  'seeded: one observation per condition (2..7 conditions, 4 non-cv methods, labels in random order or '
                  'descriptor=None); euclidean/mahalanobis with ALL condition-index sequences of length <= %d and random '
@@ -942,7 +949,7 @@ def tier_c(run, thorough):
     bds.append(bd)
 
     # ---- 5. fold labels of any type ---------------------------------------------------------------------------------
-    n_seed = 30 if thorough else 3
+    n_seed = 30 if thorough else 4
     bd = Bounded(run, 'C15/fold-relabel', 'C15/calc_rdm_unbalanced/oracle/fold-exclusion',
                  'seeded designs (3..5 conditions, 6..14 observations, 2..4 folds, random = unbalanced fold assignment and '
                  'fold-balanced) x 6 methods x 2 weightings, each under 8 fold label sets (int, negative/unsorted int, huge int, '
@@ -970,7 +977,7 @@ def tier_c(run, thorough):
     bds.append(bd)
 
     # ---- 6. NaN channels --------------------------------------------------------------------------------------------
-    n_seed = 30 if thorough else 2
+    n_seed = 30 if thorough else 4
     bd = Bounded(run, 'C15/nan-pattern', 'C15/calc_rdm_unbalanced/oracle/nan-iff-no-valid-product',
                  'seeded designs (3..5 conditions, 4..12 observations, 4..6 channels), NaN patterns none / chan / obs / row / '
                  'disjoint (two conditions without a common valid channel), 6 methods x noise x 2 weightings, with / without '
@@ -994,7 +1001,7 @@ def tier_c(run, thorough):
     bd.done()
     bds.append(bd)
 
-    n_seed = 30 if thorough else 3
+    n_seed = 30 if thorough else 4
     bd = Bounded(run, 'C15/nan-channel', 'C15/calc_rdm_unbalanced/oracle/all-nan-channel-has-no-effect',
                  'seeded designs (2..5 conditions, 3..12 observations, 2..5 channels, optionally with further per-observation '
                  'NaNs) with 1..2 all-NaN channels inserted at every position class (first / middle / last); 6 methods x noise x '
@@ -1023,7 +1030,7 @@ def tier_c(run, thorough):
     bds.append(bd)
 
     # ---- 7. dtype / memory layout -----------------------------------------------------------------------------------
-    n_seed = 20 if thorough else 2
+    n_seed = 20 if thorough else 3
     bd = Bounded(run, 'C15/dtype-layout', 'C15/calc_rdm_unbalanced/oracle/dtype-and-layout',
                  'seeded integer-valued designs (2..5 conditions, 3..10 observations, 3..5 channels) given as float64/float32/'
                  'int64/int32/int16/uint8 x C/F/strided; float designs with NaN as float64 C/F/strided; 6 methods x noise x '
@@ -1057,7 +1064,7 @@ def tier_c(run, thorough):
     bds.append(bd)
 
     # ---- 8. single-pair helper --------------------------------------------------------------------------------------
-    n_seed = 24 if thorough else 2
+    n_seed = 24 if thorough else 4
     bd = Bounded(run, 'C15/calc-one', 'C15/calc_one_similarity/oracle/agrees-with-full-computation',
                  'seeded designs (2..5 conditions, 3..12 observations, 3..5 channels), every condition pair incl. a==a; 6 methods '
                  'x noise x 2 weightings x NaN none/chan/obs, with / without folds, float64-C / int64 / float64-F inputs, prior varied; '
